@@ -17,6 +17,7 @@ hook) and the token list the parser returned (parser-entry wrapper).
 import collections
 import copy
 import hashlib
+import json
 import re
 
 from .. import workload
@@ -38,7 +39,7 @@ ASSUMPTIONS = [
     "in fix mode pass participation is not modelled: every sub-pass may be empty or a bare START for a rule; a fix-capable rule must take part in the first pass",
     "a bracket may be cut short only in the file where an injected fault fired",
 ]
-PROBES = ["scan_lines_vs_file_at_op_start", "same_file_histories", "documents_through_symlinks", "wildcard_disable_checked", "token_only_rule_sets", "fix_stream_vs_scan_checked", "scan_brackets_checked", "fix_token_brackets_checked", "fix_line_brackets_checked", "disabled_probe_checked", "empty_file", "no_final_newline", "pragma_token_stripped", "fix_with_token_fix", "probe_highest_level", "three_levels", "builtin_recorded", "fault_cut_short"]
+PROBES = ["disabled_by_configuration_file", "scan_lines_vs_file_at_op_start", "same_file_histories", "documents_through_symlinks", "wildcard_disable_checked", "token_only_rule_sets", "fix_stream_vs_scan_checked", "scan_brackets_checked", "fix_token_brackets_checked", "fix_line_brackets_checked", "disabled_probe_checked", "empty_file", "no_final_newline", "pragma_token_stripped", "fix_with_token_fix", "probe_highest_level", "three_levels", "builtin_recorded", "fault_cut_short"]
 
 EDGE_DOCS = [
     "edge_empty",
@@ -91,7 +92,25 @@ def generate(rng, tier, index):
     disabled = None
     if len(probe_ids) >= 2 and rng.random() < 0.4:
         disabled = rng.choice(probe_ids)
-    disable_by_flag = rng.random() < 0.5
+    disable_by_flag = rng.random() < 0.4
+    disable_by_config = (not disable_by_flag) and rng.random() < 0.6
+    config_files = {}
+    config_flags = []
+    if disabled and disable_by_config:
+        how = rng.choice(["json", "yaml", "pyproject"])
+        if how == "json":
+            config_files[".pymarkdown"] = json.dumps({"plugins": {disabled: {"enabled": False}}}).encode()
+        elif how == "yaml":
+            config_files[".pymarkdown.yaml"] = ("plugins:\n  %s:\n    enabled: false\n" % disabled).encode()
+        else:
+            config_files["pyproject.toml"] = ("[tool.pymarkdown]\nplugins.%s.enabled = false\n" % disabled).encode()
+        extra = rng.choice([None, "json", "yaml", "yaml"])
+        if extra == "json":
+            config_files["cfg/extra.json"] = json.dumps({"plugins": {"md013": {"line_length": 100}}}).encode()
+            config_flags = ["--config", "cfg/extra.json"]
+        elif extra == "yaml":
+            config_files["cfg/extra.yaml"] = b"plugins:\n  md013:\n    line_length: 100\n"
+            config_flags = ["--config", "cfg/extra.yaml"]
     builtins_mode = rng.choice(["default", "default", "disabled", "some", "token-only", "wildcard"])
     if builtins_mode == "token-only":
         # no enabled rule implements next_line: the engine must still complete the file
@@ -131,6 +150,7 @@ def generate(rng, tier, index):
         elif builtins_mode == "some":
             pool = [r for r in workload.DISABLE_POOL if r not in recorded_builtins]
             flags += ["-d", ",".join(rng.sample(pool, 3))]
+        flags = config_flags + flags
         if disabled and disable_by_flag:
             if "-d" in flags:
                 position = flags.index("-d") + 1
@@ -183,8 +203,9 @@ def generate(rng, tier, index):
         "builtins_mode": builtins_mode,
         "plan": [],
     }
-    if disabled and not disable_by_flag:
+    if disabled and not disable_by_flag and not disable_by_config:
         sc["probes"][disabled] = dict(sc["probes"][disabled], enabled=False)
+    sc["config_files"] = workload.files_to_spec(config_files)
     if disabled:
         sc["record"] = [r for r in sc["record"] if r != disabled]
     if rng.random() < 0.15:
@@ -200,6 +221,7 @@ def _argv(op, builtin_ids):
 def _request(sc, builtin_ids, plan=None, record_sites=False):
     files = {}
     ops = []
+    files.update(sc.get("config_files") or {})
     for op in sc["ops"]:
         files.update(op["files"])
         ops.append({"kind": "cli", "argv": _argv(op, builtin_ids), "probes": sc["probes"]})
@@ -558,6 +580,8 @@ def evaluate(sc):
                 stats["probe_highest_level"] += 1
             if view.fixed:
                 stats["fix_with_token_fix"] += 1
+    if sc.get("config_files"):
+        stats["disabled_by_configuration_file"] += 1
     if any(op.get("same_files") for op in sc["ops"]):
         stats["same_file_histories"] += 1
     if sc.get("symlinks"):
